@@ -24,7 +24,7 @@ class Node:
 
 
 class IoError:
-    type_tag = "Error"      # std::io::Error
+    type_tag = "io::Error"      # std::io::Error
 
     def __init__(self, kind, why=""):
         self.kind, self.why = kind, why  # 'NotFound' | 'Other'
@@ -648,6 +648,136 @@ def install(P):
         if e:
             return ioerr(e)
         return Ok(phys)
+
+    # ------------------------------------------------------------------ std::fs::File / BufWriter (explicit handles)
+    class FileV:
+        type_tag = "File"
+
+        def __init__(self, phys, writable):
+            self.phys, self.writable, self.closed = phys, writable, False
+
+    class BufWriterV:
+        """io::BufWriter over a FileV: bytes stay in memory until flush / drop (documents here are far below 8 KiB);
+        Drop flushes and *discards* any error"""
+        type_tag = "BufWriter"
+
+        def __init__(self, inner):
+            self.inner, self.buf, self.flushed = inner, [], True
+
+        def on_drop(self, ctx):
+            if not self.flushed:
+                do_flush(ctx, self)
+
+    def data_write(ctx, f, data):
+        w = ctx.world
+        if w.fault("write-data", f.phys):
+            return ioerr()
+        n = w.get(f.phys)
+        n.content = data if not isinstance(n.content, str) or n.content == "" else data
+        return Ok()
+
+    def do_flush(ctx, bw):
+        if bw.flushed:
+            return Ok()
+        bw.flushed = True
+        data = bw.buf[-1] if len(bw.buf) == 1 else (concat([sval(x) for x in bw.buf]) if bw.buf else "")
+        bw.buf = []
+        return data_write(ctx, bw.inner, data)
+
+    @P.summary("File::create", "File::create_new")
+    def _fcreate(ctx, c):
+        w = ctx.world
+        target = pstr(c.args[0])
+        e, phys = w.resolve(target, True)
+        if e == "Other" or (e == "NotFound" and phys is None):
+            return ioerr(e)
+        n = w.get(phys)
+        if w.fault("write", phys):
+            return ioerr()
+        if e is None:
+            if w.kind_is(n, DIR, f"create-isdir:{phys}"):
+                return ioerr("Other", "EISDIR")
+            if c.key.endswith("create_new"):
+                return ioerr("Other", "EEXIST")
+            if not w.bit(n, 0o200, f"w:{phys}"):
+                return ioerr("Other", "EACCES")
+        else:
+            if not w.parent_writable(phys):
+                return ioerr("Other", "EACCES")
+            n.mode = 0o644
+        n.kind, n.content = FILE, ""        # O_TRUNC
+        return Ok(FileV(phys, True))
+
+    @P.summary("File::open")
+    def _fopen(ctx, c):
+        w = ctx.world
+        e, phys = w.resolve(pstr(c.args[0]), True)
+        if e:
+            return ioerr(e)
+        n = w.get(phys)
+        if w.fault("read", phys):
+            return ioerr()
+        if not w.bit(n, 0o400, f"r:{phys}"):
+            return ioerr("Other", "EACCES")
+        return Ok(FileV(phys, False))
+
+    @P.summary("BufWriter::new", "BufWriter::with_capacity", "LineWriter::new")
+    def _bw_new(ctx, c):
+        return BufWriterV(deref(c.args[-1]))
+
+    @P.summary("BufWriter::into_inner")
+    def _bw_into_inner(ctx, c):
+        bw = deref(c.args[0])
+        r = do_flush(ctx, bw)
+        if r.variant == "Err":
+            return Err(Opaque("IntoInnerError", r.fields[0]))
+        return Ok(bw.inner)
+
+    @P.summary("BufWriter::get_ref", "BufWriter::get_mut")
+    def _bw_get(ctx, c):
+        return Ref(Box(deref(c.args[0]).inner))
+
+    def file_write(ctx, c, all_):
+        wv, data = deref(c.args[0]), deref(c.args[1])
+        if isinstance(wv, BufWriterV):
+            wv.buf.append(data)
+            wv.flushed = False
+            return Ok(UNIT) if all_ else Ok(0)
+        if isinstance(wv, FileV):
+            r = data_write(ctx, wv, data)
+            return r if (all_ or r.variant == "Err") else Ok(0)
+        return None
+    P.file_write = file_write
+
+    @P.summary("Write::write_all", "Write::write", "Write::write_fmt")
+    def _w_write_all(ctx, c):
+        r = file_write(ctx, c, not c.key.endswith("::write"))
+        if r is None:
+            raise Unsupported(f"Write on {deref(c.args[0])!r}")
+        return r
+
+    @P.summary("Write::flush")
+    def _w_flush(ctx, c):
+        wv = deref(c.args[0])
+        if isinstance(wv, BufWriterV):
+            return do_flush(ctx, wv)
+        return Ok()
+
+    @P.summary("File::sync_all", "File::sync_data", "File::set_permissions")
+    def _f_sync(ctx, c):
+        return Ok()
+
+    @P.summary("Read::read_to_string", "Read::read_to_end")
+    def _r_rts(ctx, c):
+        f = deref(c.args[0])
+        if isinstance(f, FileV):
+            n = ctx.world.get(f.phys)
+            buf = c.args[1]
+            while isinstance(buf.get(), Ref):
+                buf = buf.get()
+            buf.set(n.content if n.content is not None else "")
+            return Ok(0)
+        raise Unsupported("Read on " + repr(f))
 
     # ------------------------------------------------------------------ io::Error
     @P.summary("io::Error::kind", "Error::kind", "std::io::Error::kind")
